@@ -736,6 +736,13 @@ class Fuzz:
                 # a second position under the same code (the counter must not leak between positions)
                 spec += f',{code}%3D{others[0]}'
                 rp['c']['two_positions'] = True
+            if rng.random() < 0.3:
+                # one more entry under the same code whose position is of another kind (a time of day or a date-time):
+                # it equals no segment number, so the sequence is judged as without it
+                extra = f'{code}%3D' + rng.choice(['00:00:20Z', '2024-01-01T00:00:20Z', '23:59:59Z'])
+                spec = rng.choice([f'{spec},{extra}', f'{opt}={extra},' + spec[len(opt) + 1:]])
+                rp['c']['mixed_position_kinds'] = True
+                res.count('c.mixed_position_kinds')
             fq = '' if failures is None else f'&failures={failures}'
             if failures and rng.random() < 0.5:
                 # prelude in the same client session: the same fault requested WITHOUT failures= fires every
